@@ -376,6 +376,15 @@ fn kind_applies(k: &KindSpec) -> bool {
 // ------------------------------------------------------------------------------------------------
 // running one history
 
+/// the refetch schedule made by a successful lookup: when, the scheduled instant, the latest instant the documented
+/// rule allows, and the earliest-expiring cached path (fingerprint, expiry in s) the rule is about
+struct Sched {
+    at: u64,
+    nr: u64,
+    bound: u64,
+    earliest: (u64, u64),
+}
+
 #[derive(Default)]
 struct Outcome {
     disagree: Option<(usize, String, String)>,
@@ -606,6 +615,8 @@ fn run_history(h: &Hist, lean: &mut Lean, prop: &str) -> Outcome {
     // reports the code dropped as "duplicates" although the history holds no earlier report of the same failure
     // inside the deduplication window: (issue, its timestamp, the latest earlier failure report)
     let mut lost: Vec<(KindSpec, u64, String)> = vec![];
+    // the schedule made by the most recent executed lookup, if it succeeded (a failed one schedules by backoff)
+    let mut last_sched: Option<Sched> = None;
     let mut exited = false;
 
     for (idx, op) in h.ops.iter().enumerate() {
@@ -710,6 +721,27 @@ fn run_history(h: &Hist, lean: &mut Lean, prop: &str) -> Outcome {
                             let hi = now + ri_ns.max(h.cfg.backoff_max_ns()).max(mrd_ns);
                             if nr > hi {
                                 spec.push(("C06:refetch-window:too-late".into(), format!("next refetch {nr} > now {now} + max(refetch_interval, backoff max) = {hi}")));
+                            }
+                            // documented scheduling rule after a successful lookup (doc comment of fetch_and_update / property
+                            // anchor "min(interval, earliest expiry - threshold) clamped by min delay"): the next lookup is
+                            // due no later than `min_expiry_threshold` before the earliest expiry of ANY cached path - the
+                            // spare paths are what a failover switches to - unless min_refetch_delay forbids it
+                            last_sched = None;
+                            if !failed_fetch {
+                                if let Some((ee, efp)) = post.iter().filter_map(|e| e.expiry.map(|x| (x as u64, fp_u64(&e.fingerprint)))).min() {
+                                    let bound = (now + ri_ns).min((ee * NS).saturating_sub(thr_ns)).max(now + mrd_ns);
+                                    if nr > bound {
+                                        spec.push((
+                                            "C06:refetch-window:after-earliest-expiry".into(),
+                                            format!(
+                                                "after the successful lookup at now={now} the cache holds path {efp} expiring at {ee} s, so the next lookup is due by max(now + min_refetch_delay, min(now + refetch_interval, earliest expiry - min_expiry_threshold)) = {bound}, but it is scheduled for {nr} (cache: {}; active: {})",
+                                                post.iter().map(|e| format!("{}/{}", fp_u64(&e.fingerprint), exp_str(e.expiry))).collect::<Vec<_>>().join(","),
+                                                l.vs.active().map(|(p, _)| fp_exp(&p)).unwrap_or_else(|| "none".into())
+                                            ),
+                                        ));
+                                    }
+                                    last_sched = Some(Sched { at: now, nr, bound, earliest: (efp, ee) });
+                                }
                             }
                             if failed_fetch {
                                 // ideal backoff range (jitter u = 0 … 1), f32 tolerance 1e-4 relative + 1 µs
@@ -930,7 +962,30 @@ fn run_history(h: &Hist, lean: &mut Lean, prop: &str) -> Outcome {
                     if cache.iter().any(|e| unexpired(e)) {
                         let act_expired = act.as_ref().map(|(p, _)| p.expiration().map(|e| e as u64 <= now / NS).unwrap_or(false));
                         let any_valid = cache.iter().any(|e| valid_at(e.expiry, now, thr_ns));
+                        // The open finding "active path expired between ticks" is about the worker not waking when the
+                        // active path expires although the next lookup WAS scheduled by the documented rule.  A lookup that
+                        // was scheduled later than the rule allows (e.g. from the active path's expiry only, ignoring the
+                        // cached spare paths a failover switches to) and a send that falls between the documented due time
+                        // and the scheduled one is another class.
+                        let late_sched = last_sched.as_ref().filter(|s| s.nr > s.bound && now >= s.bound && now < s.nr);
                         match act_expired {
+                            Some(true) if late_sched.is_some() => {
+                                let sc = late_sched.unwrap();
+                                spec.push((
+                                    "C06:without-path:schedule-ignores-spare-expiry".into(),
+                                    format!(
+                                        "cached_path returns none at now={now}: the active path {} has expired and {} cached path(s) are not expired, {} of them valid.  The last successful lookup (at {}) cached path {} expiring at {} s; by the documented rule the next lookup was due at {} (earliest expiry of any cached path - min_expiry_threshold, clamped by min_refetch_delay / refetch_interval), i.e. before that path expired, but it was scheduled for {}: the schedule ignored the expiry of a cached spare path, traffic failed over to it and nothing refreshed it",
+                                        act.as_ref().map(|a| fp_exp(&a.0)).unwrap_or_default(),
+                                        cache.iter().filter(|e| unexpired(e)).count(),
+                                        cache.iter().filter(|e| valid_at(e.expiry, now, thr_ns)).count(),
+                                        sc.at,
+                                        sc.earliest.0,
+                                        sc.earliest.1,
+                                        sc.bound,
+                                        sc.nr
+                                    ),
+                                ));
+                            }
                             Some(true) => spec.push(("C06:without-path:active-expired-between-ticks".into(), format!("the active path expired before the worker's next maintenance tick (next refetch {}), cached_path returns none although {} cached path(s) are not expired at now={now}", ns_of(l.vs.next_refetch()), cache.iter().filter(|e| unexpired(e)).count()))),
                             None if !any_valid => spec.push(("C06:without-path:only-near-expiry-paths".into(), format!("every cached path is within min_expiry_threshold of its expiry but not expired at now={now}; none is made active and the sender gets no path"))),
                             _ => spec.push(("C06:without-path".into(), format!("cached_path returned none at now={now} although an unexpired path is cached (active slot: {:?})", act.as_ref().map(|a| fp_exp(&a.0))))),
@@ -1736,6 +1791,60 @@ fn gen_similar_burst(rng: &mut Rng) -> Hist {
     h
 }
 
+/// C06 stream "failover to a spare path": the pair is in use on path A; a (re)lookup caches A again together with
+/// spare paths that expire earlier than A, at random distances; a failure on A moves the traffic to a spare path;
+/// the worker ticks when the documented rule says the next lookup is due (earliest expiry of any cached path minus
+/// min_expiry_threshold, within [min_refetch_delay, refetch_interval] of the lookup - computed here from the
+/// configuration and the answer, NOT read from the implementation's timer) and gets fresh paths; the sender asks
+/// shortly before and after the spare paths' expiry.
+fn gen_failover_spare(rng: &mut Rng) -> Hist {
+    let routes = gen_routes(rng);
+    let mut cfg = base_cfg();
+    cfg.refetch_interval_ms = *rng.pick(&[100_000u64, 100_000, 1_800_000]);
+    cfg.min_expiry_threshold_ms = *rng.pick(&[5_000u64, 5_000, 60_000]);
+    cfg.threshold = *rng.pick(&[0.5f32, 0.3, 0.1]);
+    cfg.max_cached = *rng.pick(&[5usize, 50, 50]);
+    let (ri, thr, mrd) = (cfg.refetch_interval_ms * 1_000_000, cfg.min_expiry_threshold_ms * 1_000_000, cfg.min_refetch_delay_ms * 1_000_000);
+    let t0 = 1_000_000 * NS;
+    let far = |t: u64| (t / NS + 20_000) as u32;
+    let all = |exp: u32| -> Vec<PSpec> { (0..routes.len()).map(|i| PSpec { route: i, expiry: exp, meta: 0 }).collect() };
+    let mut h = Hist { kind: "failover-spare".into(), cfg, pol: PolSpec::None, more: vec![], routes: routes.clone(), t0, ops: vec![OpSpec::Maintain { now: t0, resp: RespSpec::Ok(all(far(t0))) }, OpSpec::Send { now: t0 + NS }] };
+    let a = dry_active_route(&h).unwrap_or(0);
+    // second lookup, one refetch interval later: A stays valid for hours, the other routes come back with less lifetime
+    let t1 = t0 + ri;
+    let mut answer = vec![];
+    let mut min_exp = far(t1) as u64;
+    for i in 0..routes.len() {
+        let exp = if i == a || rng.chance(1, 4) { far(t1) } else { (t1 / NS + thr / NS + rng.range(10, (ri / NS).min(600))) as u32 };
+        min_exp = min_exp.min(exp as u64);
+        answer.push(PSpec { route: i, expiry: exp, meta: 0 });
+    }
+    rng.shuffle(&mut answer);
+    h.ops.push(OpSpec::Maintain { now: t1, resp: RespSpec::Ok(answer) });
+    h.ops.push(OpSpec::Send { now: t1 + NS });
+    // a failure on the path in use
+    let ra = routes[a].clone();
+    let hit = if ra.transit.is_empty() || rng.chance(1, 4) {
+        if rng.chance(1, 2) { KindSpec::Fhu(1, SRC_ASN, ra.e0) } else { KindSpec::Xid(1, SRC_ASN, ra.e0, 0) }
+    } else {
+        let (asn, i, o) = ra.transit[rng.below(ra.transit.len() as u64) as usize];
+        if rng.chance(1, 2) { KindSpec::Icd(1, asn as u64, i, o, 0) } else { KindSpec::Xid(1, asn as u64, o, 0) }
+    };
+    h.ops.push(OpSpec::Report { kind: hit, ts: t1 + 2 * NS });
+    h.ops.push(OpSpec::Deliver { now: t1 + 2 * NS });
+    h.ops.push(OpSpec::Send { now: t1 + 3 * NS });
+    // the documented due time of the next lookup
+    let due = (t1 + ri).min((min_exp * NS).saturating_sub(thr)).max(t1 + mrd);
+    h.ops.push(OpSpec::Maintain { now: due, resp: RespSpec::Ok(all(far(due))) });
+    let mut sends: Vec<u64> = vec![due + NS, (min_exp * NS).saturating_sub(NS), min_exp * NS, min_exp * NS + NS, min_exp * NS + 30 * NS];
+    sends.retain(|t| *t > due && *t < due + ri.min(90 * NS));
+    sends.sort();
+    for t in sends {
+        h.ops.push(OpSpec::Send { now: t });
+    }
+    h
+}
+
 // ---- deterministic probes (each known finding / fixed defect is replayed on every run) -------------
 
 fn base_cfg() -> CfgSpec {
@@ -1848,6 +1957,38 @@ fn probes(prop: &str) -> Vec<Hist> {
                 OpSpec::Send { now: s(1) },
             ],
         });
+        // failover to a cached spare path that expires earlier than the path that was active when the pair was last
+        // looked up: the lookup at t+100 s caches A (route 0, active, valid for hours) and the refreshed spare B (route 1,
+        // expiring at t+160 s), so the next lookup is due at t+155 s; a failure on A moves the traffic to B; the worker
+        // ticks at t+155 s and the sender asks again at t+161 s
+        for (what, k, thr) in [("interface-down", KindSpec::Xid(1, 0x301, 4, 0), 0.5f32), ("connectivity-down", KindSpec::Icd(1, 0x301, 1, 4, 0), 0.5), ("send-failure", KindSpec::Fhu(1, SRC_ASN, 1), 0.3)] {
+            let mut c = base_cfg();
+            c.threshold = thr;
+            let fresh = vec![PSpec { route: 0, expiry: far + 200, meta: 0 }, PSpec { route: 1, expiry: far + 200, meta: 0 }];
+            v.push(Hist {
+                kind: format!("probe-failover-to-earlier-expiring-spare-{what}"),
+                cfg: c,
+                pol: PolSpec::None,
+                more: vec![],
+                routes: two_routes(),
+                t0,
+                ops: vec![
+                    OpSpec::Maintain { now: s(0), resp: RespSpec::Ok(vec![PSpec { route: 0, expiry: far, meta: 0 }, PSpec { route: 1, expiry: far, meta: 0 }]) },
+                    OpSpec::Send { now: s(1) },
+                    OpSpec::Maintain { now: s(100), resp: RespSpec::Ok(vec![PSpec { route: 0, expiry: far, meta: 0 }, PSpec { route: 1, expiry: 1_000_000 + 160, meta: 0 }]) },
+                    OpSpec::Send { now: s(101) },
+                    OpSpec::Report { kind: k, ts: s(102) },
+                    OpSpec::Deliver { now: s(102) },
+                    OpSpec::Send { now: s(103) },
+                    OpSpec::Maintain { now: s(155), resp: RespSpec::Ok(fresh.clone()) },
+                    OpSpec::Send { now: s(156) },
+                    OpSpec::Send { now: s(161) },
+                    OpSpec::Send { now: s(190) },
+                    OpSpec::Maintain { now: s(255), resp: RespSpec::Ok(fresh) },
+                    OpSpec::Send { now: s(256) },
+                ],
+            });
+        }
         // max_cached_paths_per_pair = 0 is accepted by the validator
         let mut c = base_cfg();
         c.max_cached = 0;
@@ -2447,6 +2588,12 @@ fn main() {
             // thorough: a few very long histories, many medium ones
             let m = if args.thorough() { if i % 50 == 0 { max_ops } else { 120 } } else { max_ops };
             hists.push(gen_history(&mut rng, &prop, m));
+        }
+        if prop == "C06" {
+            let mut fs = rng.fork();
+            for _ in 0..args.scale(60, 1000) {
+                hists.push(gen_failover_spare(&mut fs));
+            }
         }
         if prop == "C07" {
             let mut rr = rng.fork();
